@@ -11,6 +11,7 @@ import (
 	"os"
 	"sort"
 	"strings"
+	"time"
 
 	"gosym/smt"
 )
@@ -175,6 +176,9 @@ func (i *interpreter) decide(c *smt.Term) bool {
 	nc := i.cx.Not(c)
 	if ps.pcSet[nc.ID] {
 		return false
+	}
+	if !i.sh.deadline.IsZero() && time.Now().After(i.sh.deadline) {
+		panic(pathAbort{OutBound, "wall-clock budget exceeded inside a path (at a branch)"})
 	}
 	if i.replaying() {
 		d := dc.prefix[dc.pos]
